@@ -293,6 +293,11 @@ def build_module(design, mname, built):
     built.modules[mname] = m
     for k, v in ns.items():
         built.objs[(mname, k)] = v
+    for rm, rs in design.get("redeclare", []):
+        if rm == mname:
+            old = ns[rs]
+            new = h.Signal(width=old.width, vis=old.vis, direction=old.direction)
+            setattr(m, rs, new)  # a new object under the same name; the connections made so far keep the old one
     for rm, ri, rp in design.get("reads", []):
         if rm == mname:
             getattr(ns[ri], rp)  # a look at the port, nothing else
